@@ -82,6 +82,36 @@ func c17Gen(r *rand.Rand, tier string) []spec.Case {
 			}
 		}
 	}
+	// entries the user put into Cmd.Env that collide with the control variables (the idiom for SkipHostEnv is
+	// to hand the child a filtered copy of the host's environment, which in a nested host carries PLUGIN_*)
+	users := map[string][]string{
+		"user-nested": {"PLUGIN_CLIENT_CERT=" + c17AmbientCert, "PLUGIN_MULTIPLEX_GRPC=true", "PLUGIN_PROTOCOL_VERSIONS=9", "PLUGIN_MIN_PORT=1", "PLUGIN_MAX_PORT=2",
+			spec.CookieKey + "=some-other-value", "VERIF_USER_VAR=mine"},
+		"user-mux":  {"PLUGIN_MULTIPLEX_GRPC=true", "VERIF_USER_VAR=mine"},
+		"user-cert": {"VERIF_USER_VAR=mine", "PLUGIN_CLIENT_CERT=" + c17AmbientCert},
+	}
+	for rep := 0; rep < n; rep++ {
+		for _, un := range []string{"user-nested", "user-mux", "user-cert"} {
+			for _, launch := range []string{"cmd"} { // a RunnerFunc excludes Cmd, so there is no user Cmd.Env there
+				for _, mtls := range []bool{false, true} {
+					for _, mux := range []bool{false, true} {
+						for _, skip := range []bool{false, true} {
+							an := pick(r, []string{"clean", "markers", "nested-plugin"})
+							add("env", spec.C17Case{AutoMTLS: mtls, Mux: mux, SkipHostEnv: skip, Launch: launch, Ambient: amb[an], AmbientName: an,
+								Sets: pick(r, c01SetsL), UserEnv: users[un], UserEnvName: un})
+						}
+					}
+				}
+			}
+		}
+	}
+	for _, un := range []string{"user-nested", "user-mux", "user-cert"} {
+		for _, proto := range []string{"netrpc", "grpc"} {
+			for _, skip := range []bool{false, true} {
+				add("e2e", spec.C17Case{E2E: true, E2EProto: proto, SkipHostEnv: skip, Launch: "cmd", AmbientName: "clean", Sets: pick(r, c01SetsL), UserEnv: users[un], UserEnvName: un})
+			}
+		}
+	}
 	// end-to-end: a real plugin launched from a host that carries PLUGIN_* variables
 	for _, an := range names {
 		for _, proto := range []string{"netrpc", "grpc"} {
@@ -121,10 +151,10 @@ func c17Judge(c spec.Case, evs []spec.Event, d *Death) CaseResult {
 		return CaseResult{Verdict: "inconclusive", Inconcl: "environment not captured: " + o.StartErr}
 	}
 	res := CaseResult{Verdict: "held", Counters: map[string]int{}}
-	res.Class = fmt.Sprintf("%s ambient=%s mtls=%v mux=%v skip=%v e2e=%v", p.Launch, p.AmbientName, p.AutoMTLS, p.Mux, p.SkipHostEnv, p.E2E)
+	res.Class = fmt.Sprintf("%s ambient=%s user=%s mtls=%v mux=%v skip=%v e2e=%v", p.Launch, p.AmbientName, p.UserEnvName, p.AutoMTLS, p.Mux, p.SkipHostEnv, p.E2E)
 	viol := func(key, msg string) {
 		res.Verdict = "violated"
-		res.Violations = append(res.Violations, Violation{Key: "C17:" + key, Msg: fmt.Sprintf("%s [launch=%s ambient=%s autoMTLS=%v mux=%v skipHostEnv=%v sets=%s]", msg, p.Launch, p.AmbientName, p.AutoMTLS, p.Mux, p.SkipHostEnv, p.Sets)})
+		res.Violations = append(res.Violations, Violation{Key: "C17:" + key, Msg: fmt.Sprintf("%s [launch=%s ambient=%s userEnv=%s autoMTLS=%v mux=%v skipHostEnv=%v sets=%s]", msg, p.Launch, p.AmbientName, p.UserEnvName, p.AutoMTLS, p.Mux, p.SkipHostEnv, p.Sets)})
 	}
 	if p.E2E {
 		res.Counters["e2e"]++
@@ -132,7 +162,12 @@ func c17Judge(c spec.Case, evs []spec.Event, d *Death) CaseResult {
 		if o.StartErr != "" || o.ClientErr != "" || o.PingErr != "" || o.CallErr != "" {
 			key := "e2e-broken"
 			amb := effectiveEnv(p.Ambient)
+			usr := effectiveEnv(p.UserEnv)
 			switch {
+			case !p.AutoMTLS && usr["PLUGIN_CLIENT_CERT"] != "":
+				key = "user-env:PLUGIN_CLIENT_CERT"
+			case !p.Mux && usr["PLUGIN_MULTIPLEX_GRPC"] != "":
+				key = "user-env:PLUGIN_MULTIPLEX_GRPC"
 			case !p.AutoMTLS && amb["PLUGIN_CLIENT_CERT"] != "":
 				key = "inherited:PLUGIN_CLIENT_CERT"
 			case !p.Mux && amb["PLUGIN_MULTIPLEX_GRPC"] != "":
@@ -175,6 +210,7 @@ func c17Judge(c spec.Case, evs []spec.Event, d *Death) CaseResult {
 		viol("ports", fmt.Sprintf("port range %q-%q, configured %d-%d", E["PLUGIN_MIN_PORT"], E["PLUGIN_MAX_PORT"], minP, maxP))
 	}
 	amb := effectiveEnv(p.Ambient)
+	usr := effectiveEnv(p.UserEnv)
 	cert := E["PLUGIN_CLIENT_CERT"]
 	if p.AutoMTLS {
 		blk, _ := pem.Decode([]byte(cert))
@@ -182,11 +218,15 @@ func c17Judge(c spec.Case, evs []spec.Event, d *Death) CaseResult {
 			viol("cert-missing", "AutoMTLS on but PLUGIN_CLIENT_CERT is not a PEM certificate")
 		} else if cert == amb["PLUGIN_CLIENT_CERT"] {
 			viol("inherited:PLUGIN_CLIENT_CERT", "AutoMTLS on but the child got the host's own inherited certificate")
+		} else if cert == usr["PLUGIN_CLIENT_CERT"] {
+			viol("user-env:PLUGIN_CLIENT_CERT", "AutoMTLS on but the child got the certificate found in Cmd.Env instead of this client's")
 		}
 	} else if cert != "" {
 		k := "cert-present"
 		if cert == amb["PLUGIN_CLIENT_CERT"] {
 			k = "inherited:PLUGIN_CLIENT_CERT"
+		} else if cert == usr["PLUGIN_CLIENT_CERT"] {
+			k = "user-env:PLUGIN_CLIENT_CERT"
 		}
 		viol(k, "AutoMTLS off but the child receives a non-empty PLUGIN_CLIENT_CERT")
 	}
@@ -199,6 +239,8 @@ func c17Judge(c spec.Case, evs []spec.Event, d *Death) CaseResult {
 		k := "mux-present"
 		if mx == amb["PLUGIN_MULTIPLEX_GRPC"] {
 			k = "inherited:PLUGIN_MULTIPLEX_GRPC"
+		} else if mx == usr["PLUGIN_MULTIPLEX_GRPC"] {
+			k = "user-env:PLUGIN_MULTIPLEX_GRPC"
 		}
 		viol(k, fmt.Sprintf("multiplexing not requested but the child receives PLUGIN_MULTIPLEX_GRPC=%q", mx))
 	}
@@ -243,7 +285,7 @@ func init() {
 		ID: "C17", Level: "exploration", Race: true, TestName: "TestC17",
 		Gen: c17Gen, Batch: 12, Children: 12, PerCase: 3 * time.Second, Base: 90 * time.Second,
 		Judge: c17Judge,
-		Rule:  "cases = client configuration (AutoMTLS x mux x SkipHostEnv x launch method x plugin-set layout x port range x socket group/TempDir x user Cmd.Env) x ambient host environment (clean, marker variables, host that is itself a plugin and carries PLUGIN_* variables, single inherited variable). The environment is captured as handed to a custom runner and as actually received by a real child process (which also reports its stdin's device/inode); e2e cases launch a real serving plugin from such a host. Class = (launch, ambient, AutoMTLS, mux, SkipHostEnv, e2e)",
+		Rule:  "cases = client configuration (AutoMTLS x mux x SkipHostEnv x launch method x plugin-set layout x port range x socket group/TempDir x user Cmd.Env, including entries that collide with the control variables) x ambient host environment (clean, marker variables, host that is itself a plugin and carries PLUGIN_* variables, single inherited variable). The environment is captured as handed to a custom runner and as actually received by a real child process (which also reports its stdin's device/inode); e2e cases launch a real serving plugin from such a host. Class = (launch, ambient, AutoMTLS, mux, SkipHostEnv, e2e)",
 		Assumptions: []string{
 			"the effective environment is computed as exec does (last duplicate wins); an empty value counts as absent because that is how the server reads these variables",
 			"only ambient variables are judged under SkipHostEnv; entries the user put into Cmd.Env are theirs",
